@@ -66,3 +66,15 @@ Proof.
   exists ONormal, ([] ++ [0]). split; [|discriminate].
   apply e_seq_n; [apply e_if_na_e; [reflexivity|constructor]|constructor].
 Qed.
+
+From Eupsv Require Import Base.Base Model.Db Proofs.DbCor.
+
+(* the same guarantee on the database model of C06 (Model/Db.v, hand-written and tied to the code by C06's
+   correspondence check): with noaction every command of the model except Eups.assignTag - which the code
+   never guards and which is only reached through a guarded call in declare, as dryrun_declare shows -
+   computes the empty list of file effects and leaves the database unchanged *)
+Theorem dryrun_database_model_unchanged p d o d' :
+  o_noaction (op_opts o) = true -> is_assign o = false ->
+  step_gen p d o = Ok d' -> effects_gen p d o = Ok [] /\ d' = d.
+Proof. exact (noaction_step p d o d'). Qed.
+Print Assumptions dryrun_database_model_unchanged.
